@@ -24,7 +24,12 @@ class FieldSelectionsOnObjectsInterfacesAndUnionsTypes(
             parent_type_name, field.name.value, schema
         )
 
-        if field.name.value.startswith("__"):
+        # Introspection meta-fields: `__typename` is selectable on every
+        # composite type, `__schema` & `__type` only on the query root type
+        if field.name.value == "__typename" or (
+            field.name.value in ("__schema", "__type")
+            and parent_type_name == schema.query_operation_name
+        ):
             return []
 
         if graphql_type is None:
